@@ -7,7 +7,7 @@ new remainder, the new state.  ISO: RSplit::next/next_back are Split::next_back/
 DLG: constructors (empty delimiter -> Empty(Start), else Normal), rsplit = split(..).rev(),
 remainder() returns the remainder field.  D1: item and new remainder are a Prefix/Suffix pair.
 """
-from .. import sym, table, prov
+from .. import accessors, sym, table, prov
 from ..sym import show
 from ..table import Row, eq, ne, Int
 
@@ -90,6 +90,7 @@ def run(ctx):
     ctx.floor("TAB-SPLIT", 4)
     ctx.floor("ISO", 2)
     ctx.floor("DLG", 6)
+    ctx.floor("ACC", 4)
 
 
 def _renorm(t):
@@ -321,6 +322,8 @@ def misc(ctx, prog):
             if len(ps) != 1 or ps[0].value != ("field", ("deref", ("p", 1)), 0):
                 ctx.violation("DLG", "%s|%s::remainder" % (prog.config, ty), "remainder() returns %s" % show(ps[0].value), b.file())
             ctx.instance("DLG", "%s|%s::remainder" % (prog.config, ty))
+    for mod, ty in ((SP, "Split"), (SP, "RSplit"), (ST, "SplitTerminator"), (ST, "RSplitTerminator")):
+        accessors.rebuild(ctx, "ACC", prog, mod + ty + "::copy", nfields=2)
     for ty in ("Split", "RSplit"):
         b = prog.get(SP + ty + "::rev")
         if b is not None:
